@@ -207,6 +207,10 @@ SEPS = [' ', '\n', '\r\n', ' /*c*/ ', ' /*a\u2028b\u2029*/ ', '\r', ' /*a\nb*/ '
 def main(run, tier):
     from . import parsefwd
     parsefwd.add(run, tier, positions=True)
+    # the two position primitives every setpos / token-handler call rests on, for all integers (contracts/positions.py)
+    from ..e1run import verify_functions as _vfp
+    import contracts.positions as _cpos
+    _vfp(run, _cpos.build(importlib.import_module('calmjs.parse.asttypes')), {}, {}, tier=tier)
     # positions are counted with the lexer's line-terminator patterns: their obligations (C06) are imported
     from . import c06 as _c06
     _c06.class_obligations(run, importlib.import_module('calmjs.parse.lexers.es5'))
